@@ -1,4 +1,5 @@
 import ScVerif.C03.Inv
+import ScVerif.C03.Lossy
 /-!
 # C03 — property theorems
 
@@ -103,6 +104,36 @@ example :
     (run c₀ [.sub 0, .commit 0, .commit 1]).store 0 = none ∧
     (run c₀ [.sub 0, .commit 0, .commit 1]).lock = some 0 ∧
     (run c₀ [.sub 0, .commit 0, .deliver 0, .commit 1]).store 0 = some 5 := by
+  decide
+
+/-! ### The lossy face of publish-after-unlock: a duplicate of the seed is cancelled by a later REMOVE
+
+`C03_converges_partial` treats the stages between bus and consumer as drained.  With a paused consumer the
+merge stage of a LOSSY `Collection.Pull` sees the duplicate ADD (the change was committed before the subscriber's
+snapshot but published after it) and cancels it against a following REMOVE, so the REMOVE never reaches a
+subscriber whose seed already contains the id.  Single writer.  Recorded in known_findings/C03.json and
+exhibited on the real code by the monitor `converges-lossy-seed-dup-hooked`. -/
+
+open Lossy in
+/-- **Dup not harmless under merging.**  Store initially empty; `Add(0, 10)` commits; the subscriber's snapshot
+(`seed`) already holds id 0; then the ADD is published and a `Delete(0)` follows while the consumer is paused.
+The pending list ends empty, the drained view keeps id 0, the store does not. -/
+theorem C03_lossy_seed_dup_fails :
+    let add : Chg := ⟨0, .add, some 10⟩
+    let del : Chg := ⟨0, .remove, none⟩
+    let seed : Nat → Option Int := applyChg (fun _ => none) add
+    let store : Nat → Option Int := [add, del].foldl applyChg (fun _ => none)
+    let pending := recv (recv [] add) del
+    pending = [] ∧ (pending.foldl applyChg seed) 0 = some 10 ∧ store 0 = none := by
+  decide
+
+open Lossy in
+/-- without the duplicate (the subscriber registered before the commit, its seed lacks the id) the same
+cancellation is harmless -/
+example :
+    let add : Chg := ⟨0, .add, some 10⟩
+    let del : Chg := ⟨0, .remove, none⟩
+    ((recv (recv [] add) del).foldl applyChg (fun _ => none)) 0 = ([add, del].foldl applyChg (fun _ => none)) 0 := by
   decide
 
 end ScVerif.C03
